@@ -71,6 +71,30 @@ theorem chunksI_ref (n : Nat) (caps : List Nat) (rem : Bytes) : chunksI refChunk
   rw [h]
   simp [chunks]
 
+theorem loopTrueI_ref (n : Nat) : ∀ (f : Nat) (rem : Bytes) (caps : List Nat) (cur : Option Bytes) (out : List Bytes),
+    (loopTrueI n refChunksRotated.body f { rem := rem, caps := caps, cur := cur, out := out }).out = out ++ chunksF f n caps rem
+    ∧ (loopTrueI n refChunksRotated.body f { rem := rem, caps := caps, cur := cur, out := out }).bad = false := by
+  intro f
+  induction f with
+  | zero => intro rem caps cur out; simp [loopTrueI, chunksF]
+  | succ f ih =>
+    intro rem caps cur out
+    simp only [loopTrueI, chunksF, refChunksRotated, List.foldl, bodyStep, cRead, Bool.false_eq_true, if_false]
+    by_cases h : (List.take (readLimit n caps) rem).isEmpty = true
+    · simp [h]
+    · simp only [h, Bool.false_eq_true, if_false]
+      have := ih (rem.drop (List.take (readLimit n caps) rem).length) caps.tail (some (List.take (readLimit n caps) rem))
+        (out ++ [List.take (readLimit n caps) rem])
+      simp only [refChunksRotated] at this
+      simpa using this
+
+theorem chunksI_refRotated (n : Nat) (caps : List Nat) (rem : Bytes) :
+    chunksI refChunksRotated n caps rem = some (chunks n caps rem) := by
+  have h := loopTrueI_ref n (rem.length + 1) rem caps none []
+  simp only [refChunksRotated] at h
+  simp only [chunksI, refChunksRotated, List.foldl, preStep, Option.isSome_none, Bool.false_eq_true, if_false, h.2]
+  simp [h.1, chunks]
+
 /-! ### `__repr__` -/
 theorem replace1_append (c : Nat) (rep a b : Text) : replace1 c rep (a ++ b) = replace1 c rep a ++ replace1 c rep b := by
   simp [replace1]
